@@ -34,6 +34,7 @@ type job struct {
 	Files map[string]string `json:"files"`
 	Links []string          `json:"links"` // names of Files that are created as symlinks to regular files in a sibling directory
 	Std   string            `json:"std"` // import path of a GOROOT package instead of Files
+	Where string            `json:"where"` // project directory relative to $VERIF_SCRATCH (instead of the per-run scratch directory)
 }
 
 type result struct {
@@ -164,6 +165,9 @@ func runJob(j job, scratch string) result {
 		}
 	} else {
 		dir = filepath.Join(scratch, "d"+j.ID)
+		if j.Where != "" {
+			dir = filepath.Join(os.Getenv("VERIF_SCRATCH"), filepath.FromSlash(j.Where), "d"+j.ID)
+		}
 		os.MkdirAll(dir, 0o755)
 		defer os.RemoveAll(dir)
 		os.WriteFile(filepath.Join(dir, "go.mod"), []byte("module gvsel\n\ngo 1.20\n"), 0o644)
